@@ -502,6 +502,11 @@ fn key_of(i: usize) -> &'static Key {
 
 /// Key index -> public key: 0..3 owners, 9 unrelated, 80 + o = the other guise of owner o.
 fn pub_of(i: usize) -> PublicKey {
+    if i == 70 {
+        // an unrelated RSA key declared with a scheme the library does not know: it can never have
+        // a valid signature, so a key set that contains it can never be satisfied
+        return PublicKey::from_spki(keys::RSA_SPKI[1], in_toto::crypto::SignatureScheme::Unknown("rsassa-pss-sha384".into())).expect("key with an unknown scheme");
+    }
     if i >= 80 {
         guise(i - 80).expect("guise")
     } else {
@@ -535,6 +540,13 @@ fn keymaps(signers: &[usize]) -> Vec<KeyMap> {
         v.push(KeyMap { name: "key-filed-under-foreign-id".into(), entries: vec![(key_of(9).id(), s0)] });
         // an unrelated key filed under a signer's id
         v.push(KeyMap { name: "unrelated-key-under-signer-id".into(), entries: vec![(key_of(s0).id(), 9)] });
+    }
+    // the signers plus a key whose declared scheme is unknown (nobody can have signed for it)
+    {
+        let mut e: Vec<(String, usize)> = signers.iter().map(|i| own(*i)).collect();
+        e.push((id_str(&pub_of(70)), 70));
+        v.push(KeyMap { name: "signers+key-with-unknown-scheme".into(), entries: e });
+        v.push(KeyMap { name: "key-with-unknown-scheme-only".into(), entries: vec![(id_str(&pub_of(70)), 70)] });
     }
     // one key in two guises (same material, two intrinsic ids), next to the other signers
     for g in signers.iter().copied().filter(|s| *s < 3) {
@@ -572,7 +584,7 @@ fn state_json(base: &str, s: &Signed, km: &KeyMap, hist: &[&str], corr: &str, ci
     json!({
         "base": base,
         "signers": s.signers,
-        "caller_keys": km.entries.iter().map(|(l, i)| json!({"label": l, "key": if *i == 9 { "X(unrelated)".to_string() } else if *i >= 80 { format!("{} rebuilt from its raw public key (no hash-algorithm list: another key id)", OWNER_NAMES[*i - 80]) } else { OWNER_NAMES[*i].to_string() }, "key_index": i})).collect::<Vec<_>>(),
+        "caller_keys": km.entries.iter().map(|(l, i)| json!({"label": l, "key": if *i == 9 { "X(unrelated)".to_string() } else if *i == 70 { "U(unrelated RSA key declared with an unknown scheme)".to_string() } else if *i >= 80 { format!("{} rebuilt from its raw public key (no hash-algorithm list: another key id)", OWNER_NAMES[*i - 80]) } else { OWNER_NAMES[*i].to_string() }, "key_index": i})).collect::<Vec<_>>(),
         "caller_keys_name": km.name,
         "mutations": hist,
         "corruption": corr,
@@ -628,7 +640,7 @@ fn exec(acc: &mut Acc, base: &Base, s: &Signed, km: &KeyMap, hist: &[&str], corr
         // (for the RSA guise any entry under its id is taken as possibly valid: allowed only errs towards silence)
         block["signatures"].as_array().map(|a| a.iter().any(|e| e["keyid"].as_str() == Some(gid.as_str()) && e["sig"].as_str().is_some() && (g == 82 || e["sig"].as_str() == s.genuine.get(&own).map(|x| x.as_str())))).unwrap_or(false)
     };
-    let all_valid = km.entries.iter().all(|(_, i)| *i != 9 && if *i >= 80 { guise_entry_valid(*i) } else { valid.contains(i) });
+    let all_valid = km.entries.iter().all(|(_, i)| *i != 9 && *i != 70 && if *i >= 80 { guise_entry_valid(*i) } else { valid.contains(i) });
     let allowed = !km.entries.is_empty() && distinct && all_valid && identity;
     // the verdict must not depend on the requested summary name (public parameter)
     let v = world::verify(&parsed, to_map(km), &base.dir);
